@@ -308,8 +308,16 @@ func projectElemMatch(ctx Context, doc bsonkit.Doc, _, path string, v interface{
 		Expression: ExpressionQueryOperators,
 	}
 
+	// a query without operators can only match embedded documents
+	queryForm := len(query) > 0 && (len(query[0].Key) == 0 || query[0].Key[0] != '$')
+
 	// find first matching element
 	for _, item := range array {
+		// skip scalars if fields are queried
+		if _, isDoc := item.(bson.D); queryForm && !isDoc {
+			continue
+		}
+
 		virtual := bson.D{
 			bson.E{Key: "item", Value: item},
 		}
